@@ -9,6 +9,8 @@ Two behaviour-preserving rewrites make routine refactorings invisible to the rul
   form (the statements after an `if` that returns are pushed into its branches); a helper that returns from inside a loop, a
   try or a with block, yields, or takes *args/**kwargs is left alone.  A list comprehension assigned to a name whose element
   calls such a helper is first rewritten as the equivalent append loop, so that the call can be inlined there.
+* conditional expressions: `T = a if c else b` as the whole value of an assignment / return is rewritten to the if-statement
+  form, so the two spellings of a two-way choice are one shape (applies to every function, old or new).
 * constant substitution: a load of a module-level or class-level name that is not in the inventory and is bound exactly once to
   a literal expression (numbers, strings, tuples/lists/dicts/sets of those, arithmetic over them, references to names of the
   module) is replaced by that expression, so `_M_PER_FT = 0.3048 ... x * _M_PER_FT` reads `x * 0.3048` again.
@@ -274,7 +276,8 @@ class ModuleNormalizer(object):
         # parents for the rewritten tree
         for n in ast.walk(self.tree):
             for c in ast.iter_child_nodes(n):
-                c._parent = n
+                if not isinstance(c, (ast.expr_context, ast.operator, ast.unaryop, ast.boolop, ast.cmpop)):      # shared singletons: see Repo.tree
+                    c._parent = n
         return self.tree
 
     def _functions(self):
@@ -292,6 +295,33 @@ class ModuleNormalizer(object):
             if not changed:
                 break
         self._const_pass(cls, fn)
+        self._ifexp_pass(fn)
+
+    # ------------------------------------------------------------------ conditional expressions
+    def _ifexp_pass(self, fn):
+        """`T = a if c else b` (conditional expression as the whole value of a statement) reads `if c: T = a else: T = b`:
+        one canonical form for the two spellings of a two-way choice."""
+        def lower(stmts):
+            out = []
+            for s in stmts:
+                v = getattr(s, "value", None) if isinstance(s, (ast.Assign, ast.AnnAssign, ast.AugAssign, ast.Return)) else None
+                if isinstance(v, ast.IfExp):
+                    a, b = copy.deepcopy(s), copy.deepcopy(s)
+                    a.value, b.value = v.body, v.orelse
+                    node = ast.If(test=v.test, body=lower([a]), orelse=lower([b]))
+                    ast.copy_location(node, s)
+                    out.append(node)
+                    continue
+                for field in ("body", "orelse", "finalbody"):
+                    blk = getattr(s, field, None)
+                    if isinstance(blk, list) and blk and isinstance(blk[0], ast.stmt) and not isinstance(s, (ast.FunctionDef, ast.ClassDef, ast.AsyncFunctionDef)):
+                        setattr(s, field, lower(blk))
+                for h in getattr(s, "handlers", []) or []:
+                    h.body = lower(h.body)
+                out.append(s)
+            return out
+        fn.body = lower(fn.body)
+        ast.fix_missing_locations(fn)
 
     # ------------------------------------------------------------------ constants
     def _const_pass(self, cls, fn):
